@@ -226,7 +226,10 @@ REG['C18'] = dict(
          'every pixel of the rotated image, rotate_layout (called with the ROTATED image shape, as detect does) maps the pixel\'s '
          'coordinates to within one pixel per axis of the original pixel (exactly +1 on the flipped axis: the bound is tight); np.rot90 '
          'is modelled as an index bijection inside the image; the map is an isometry on displacements (baselines, outlines and region '
-         'polygons keep their shape); rot=0 is the identity. Exact correspondence with the real np.rot90 (index-stamped images) and the '
+         'polygons keep their shape); rot=0 is the identity; order_lines_vertical (three separate sorts with the same jittered keys) keeps '
+         'baseline, heights and outline of a line together, only permutes the lines, sorts them by jittered vertical position, strictly '
+         'when the keys are distinct (so Python never compares the NumPy payloads). Exact correspondence of the real '
+         'order_lines_vertical (jitter stream under control) with the model; exact correspondence with the real np.rot90 (index-stamped images) and the '
          'real rotate_layout for all rotations on non-square shapes. NOT decided by proof: the ridge-decoding clause (scipy.ndimage '
          'smoothing, non-maxima suppression, labelling, percentiles) - judged by an oracle on LayoutEngine.parse over synthetic maps '
          '(one line per ridge, end points / vertical position within a few map pixels x ds, heights = map x ds) and on the whole '
